@@ -79,8 +79,8 @@ func PartialSort(m map[string]int) []string {
 	return ks
 }
 
-func Clock() int64  { return time.Now().Unix() }
-func Random() int   { return rand.Int() }
+func Clock() int64       { return time.Now().Unix() }
+func Random() int        { return rand.Int() }
 func Addr(p *int) string { return fmt.Sprintf("%p", p) }
 
 // KeyedCopy must stay silent.
@@ -516,3 +516,31 @@ func sortedOf[K cmp.Ordered, V any](m map[K]V) []K {
 
 // GenericSorted must stay silent.
 func GenericSorted(m map[string]int) []string { return sortedOf(m) }
+
+// fbox is a box of floating-point numbers: with a NaN coordinate the comparisons below are all
+// false, so what Extend leaves in the accumulator depends on the order of the calls.
+type fbox struct{ lo, hi float64 }
+
+func (b *fbox) Extend(o fbox) {
+	if o.lo < b.lo {
+		b.lo = o.lo
+	}
+	if o.hi > b.hi {
+		b.hi = o.hi
+	}
+}
+
+// FloatMinMax must be reported: a floating-point min/max reducer over a map is order-dependent
+// (NaN), unlike the integer one of MinMax.
+func FloatMinMax(m map[string]fbox) (res fbox) {
+	first := true
+	for _, b := range m {
+		if first {
+			res = b
+			first = false
+		} else {
+			res.Extend(b)
+		}
+	}
+	return res
+}
